@@ -239,6 +239,14 @@ func (r *c06Run) Main(s *sim.Sim) {
 		s.Fail("C06", "legal-message-failed", "response", "reading a %d byte value failed: %v", len(big), err)
 		return
 	}
+	// another client connects with the smallest buffers the protocol allows and goes away
+	// again: what it negotiates is its own business and must not change what this
+	// connection was acknowledged
+	if by, err := dialRawClient(s, srvAddr, refcodec.Hello{RecvBuf: 8192, SendBuf: 8192, MaxMsg: 16384, MaxChunks: 2, Endpoint: srvURL}, nil); err == nil {
+		by.Open(60000, false)
+		s.Probe("bystander-with-small-hello")
+		defer by.Close()
+	}
 	// (b) a request in chunks of exactly the size the server said it can receive
 	wr := writeReq(e.nodeID("big"), fill(4, 2*int(cl.Ack.RecvBuf)))
 	svc, err = sendWithToken(wr)
